@@ -122,7 +122,105 @@ pub fn group_values_n(ts: proc_macro2::TokenStream, in_attr: bool, depth: usize)
     out.into_iter().collect()
 }
 
+/// Marker: the item as a macro would assemble it in code rather than parse it from text -
+/// optional punctuation absent (`:` before bounds, `=` before a default, `<` `>` around the
+/// parameters, trailing commas; syn prints the same tokens either way), discriminants and every
+/// other field type forwarded inside an invisible group.
+pub const BUILT: &str = "/*P*/";
+
+fn built(mut di: syn::DeriveInput) -> syn::DeriveInput {
+    for p in di.generics.params.iter_mut() {
+        match p {
+            syn::GenericParam::Type(t) => {
+                t.colon_token = None;
+                t.eq_token = None;
+                t.bounds = std::mem::take(&mut t.bounds).into_iter().collect();
+            }
+            syn::GenericParam::Lifetime(l) => {
+                l.colon_token = None;
+                l.bounds = std::mem::take(&mut l.bounds).into_iter().collect();
+            }
+            syn::GenericParam::Const(c) => c.eq_token = None,
+        }
+    }
+    di.generics.params = std::mem::take(&mut di.generics.params).into_iter().collect();
+    di.generics.lt_token = None;
+    di.generics.gt_token = None;
+    fn fields(fs: &mut syn::Fields) {
+        let group = |ty: &mut syn::Type| {
+            let inner = std::mem::replace(ty, syn::Type::Verbatim(Default::default()));
+            *ty = syn::Type::Group(syn::TypeGroup { group_token: Default::default(), elem: Box::new(inner) });
+        };
+        match fs {
+            syn::Fields::Named(n) => {
+                for (i, f) in n.named.iter_mut().enumerate() {
+                    f.colon_token = None;
+                    if i % 2 == 0 {
+                        group(&mut f.ty);
+                    }
+                }
+                n.named = std::mem::take(&mut n.named).into_iter().collect();
+            }
+            syn::Fields::Unnamed(u) => {
+                for (i, f) in u.unnamed.iter_mut().enumerate() {
+                    if i % 2 == 0 {
+                        group(&mut f.ty);
+                    }
+                }
+                u.unnamed = std::mem::take(&mut u.unnamed).into_iter().collect();
+            }
+            syn::Fields::Unit => {}
+        }
+    }
+    match &mut di.data {
+        syn::Data::Struct(s) => fields(&mut s.fields),
+        syn::Data::Enum(e) => {
+            for v in e.variants.iter_mut() {
+                fields(&mut v.fields);
+                if let Some((_, d)) = &mut v.discriminant {
+                    let inner = std::mem::replace(d, syn::Expr::Verbatim(Default::default()));
+                    *d = syn::Expr::Group(syn::ExprGroup { attrs: vec![], group_token: Default::default(), expr: Box::new(inner) });
+                }
+            }
+            e.variants = std::mem::take(&mut e.variants).into_iter().collect();
+        }
+        syn::Data::Union(u) => {
+            for f in u.fields.named.iter_mut() {
+                f.colon_token = None;
+            }
+        }
+    }
+    di
+}
+
+/// Token text in which invisible groups are visible (as `{ __invisible__ .. }`), so that a value
+/// that lost or gained one does not print like the original.
+pub fn show<T: quote::ToTokens>(t: &T) -> String {
+    fn walk(ts: proc_macro2::TokenStream) -> proc_macro2::TokenStream {
+        use proc_macro2::{Delimiter, Group, Ident, Span, TokenTree};
+        ts.into_iter()
+            .map(|tt| match tt {
+                TokenTree::Group(g) => {
+                    let inner = walk(g.stream());
+                    if g.delimiter() == Delimiter::None {
+                        let mut v: Vec<TokenTree> = vec![TokenTree::Ident(Ident::new("__invisible__", Span::call_site()))];
+                        v.extend(inner);
+                        TokenTree::Group(Group::new(Delimiter::Brace, v.into_iter().collect()))
+                    } else {
+                        TokenTree::Group(Group::new(g.delimiter(), inner))
+                    }
+                }
+                other => other,
+            })
+            .collect()
+    }
+    walk(t.to_token_stream()).to_string()
+}
+
 pub fn parse_input(src: &str) -> syn::Result<syn::DeriveInput> {
+    if let Some(plain) = src.strip_suffix(BUILT) {
+        return syn::parse_str(plain).map(built);
+    }
     let (plain, depth) = match (src.strip_suffix(GROUPED), src.strip_suffix(GROUPED2)) {
         (Some(p), _) => (p, 1),
         (_, Some(p)) => (p, 2),
